@@ -115,6 +115,21 @@ register("C12", "proof", TOMO + "Every class of every configuration (one seeded 
          "exactly the unsigned elements of the given group.", TRUST + " Exact statistics; Q2/Q5/Q6 assumed; other members of a class via C03.",
          "native symbolic execution over exact linear forms + normal-form comparison with oracle pull-back", "DESIGN.md 5 (C10-C12)")
 
+register("C13", "proof",
+         "Frame / ownership contracts per call: deep argument snapshots, heap separation of every result from module state (caches, pass manager, class "
+         "tables) by a reachability walk, an AST inventory of module-level mutable state and cache writes, and an AST determinism scan - on every public entry "
+         "point and every advertised configuration. A short lemma lifts them to all interleavings of calls and caller-side mutations; the behavioural "
+         "consequence (mutate an earlier result, call again; cold vs warm cache) is checked directly.",
+         TRUST + " The histories quantifier is reached through the lemma, not enumerated; the cross-process clause compares two processes only (bounded).",
+         "frame/ownership contracts (argument snapshots, heap separation, module-state inventory) + lemma over histories", "DESIGN.md 5 (C13)")
+
+register("C14", "proof",
+         "Format contracts of Stabilizer.__init__/to_list discharged exhaustively: every signed generator string (3*4^n per n, every position) with the column "
+         "frame of the parsing loop checked on the AST, all two-string lists for n=2, export/round-trip/mirror, malformed input rejection; graph format on all "
+         "graphs n<=5 (6 thorough); circuit format relative to assumed Q1 (exhaustive for <=2 gates on <=3 qubits).",
+         TRUST + " Circuit format rests on assumed Q1; cross-format and long circuits seeded (bounded).",
+         "exhaustive enumeration under contracts (GROUND) + AST frame", "DESIGN.md 5 (C14)")
+
 NOT_APPLICABLE = []   # every property is claimed; sub-claims outside the family's reach are labelled in the evidence
 
 
